@@ -73,7 +73,16 @@ Plans == <<
   <<Sel(<<Metric("m")>>), Paren(1), Agg("sum", TRUE, <<"a">>, <<2>>), Paren(3)>>,
   <<SelAt(<<Metric("m")>>, 0, "lit", 3), Agg("sum", TRUE, <<"a">>, <<1>>)>>,
   <<Sel(<<Metric("m")>>), Agg("stddev", TRUE, <<"a">>, <<1>>)>>,
-  <<Sel(<<Metric("m"), Eq("a", "x")>>), Sel(<<Metric("m"), Eq("a", "y")>>), BinM("+", 1, 2, FALSE, "1:1", TRUE, <<"b">>, <<>>)>> >>
+  <<Sel(<<Metric("m"), Eq("a", "x")>>), Sel(<<Metric("m"), Eq("a", "y")>>), BinM("+", 1, 2, FALSE, "1:1", TRUE, <<"b">>, <<>>)>>,
+  \* nests of aggregations (only the innermost is pushed down; count of counts is the distinct-count idiom)
+  <<Sel(<<Metric("m")>>), Agg("count", TRUE, <<"b">>, <<1>>), Agg("count", TRUE, <<>>, <<2>>)>>,
+  <<Sel(<<Metric("m")>>), Agg("count", TRUE, <<"a">>, <<1>>), Agg("count", FALSE, <<"a">>, <<2>>), Num(10), Bin("*", 3, 4)>>,
+  <<Sel(<<Metric("m")>>), Agg("sum", TRUE, <<"b">>, <<1>>), Agg("sum", TRUE, <<>>, <<2>>)>>,
+  <<Sel(<<Metric("m")>>), Agg("count", TRUE, <<"b">>, <<1>>), Agg("sum", TRUE, <<>>, <<2>>)>>,
+  <<Sel(<<Metric("m")>>), Agg("min", TRUE, <<"a", "b">>, <<1>>), Agg("max", FALSE, <<"b">>, <<2>>), Agg("min", TRUE, <<>>, <<3>>)>>,
+  <<Sel(<<Metric("m")>>), Num(1), Agg("topk", TRUE, <<"a">>, <<2, 1>>), Num(2), Agg("topk", TRUE, <<>>, <<4, 3>>)>>,
+  <<Sel(<<Metric("m")>>), Agg("group", TRUE, <<"b">>, <<1>>), Agg("group", TRUE, <<>>, <<2>>), Agg("count", TRUE, <<>>, <<3>>)>>,
+  <<Sel(<<Metric("m")>>), Agg("avg", TRUE, <<"b">>, <<1>>), Agg("count", TRUE, <<>>, <<2>>)>> >>
 
 Init == g \in [p : 1..Len(Plans), asg : [1..NSeries -> Engines], win : {"instant", "range"}]
 Next == UNCHANGED g
